@@ -746,6 +746,10 @@ func redactScalarValue(keyPath []string, v interface{}, isSearchStage bool, isSe
 		return v
 	}
 	parentKey = keyPath[len(keyPath)-1]
+	if parentKey == "subType" && grandParentKey == "$binary" {
+		// the BSON binary subtype is not user data (search stages do not consult the $binary operator table)
+		return v
+	}
 	if str, isStr := v.(string); isStr {
 		switch parentKey {
 		case "$date":
